@@ -172,6 +172,7 @@ def write_replay(out_dir, prop, cfg, env_keys, v, minimised=None):
         "hook_limit": cfg.get("hook_limit"), "params": cfg.get("params", {}), "env": env_keys,
         "seed": v["seed"], "index": v.get("index"), "signature": v["sig"], "message": v["msg"],
         "decoded": v.get("detail"), "tape": v.get("tape"), "minimised": False,
+        "pair_hashseed": cfg.get("pair_hashseed"),
     }
     if minimised:
         rep.update(minimised)
@@ -188,6 +189,22 @@ def replay_file(path, repo, scratch, tag="replay"):
         "hook_limit": rep.get("hook_limit"), "repo": repo, "scratch": scratch, "tier": "quick",
         "params": rep.get("params", {}), "base_seed": 0,
     }
+    if rep.get("pair_hashseed"):
+        # a hash-seed cross-check: run the same index under both hash seeds and compare the model digests
+        recs = []
+        for hs in ("0", str(rep["pair_hashseed"])):
+            env2 = env_for(rep["mode"], rep.get("hook_limit"), scratch, tag + hs, hashseed=hs, extra=None)
+            c2 = dict(cfg, action="range", start=rep["index"], stop=rep["index"] + 1, step=1, base_seed=rep["base_seed"],
+                      budget_s=600, per_run=True)
+            j2 = single_run_job(c2, env2, scratch, f"{tag}-hs{hs}")
+            run_jobs([j2], 1)
+            if j2.status != "ok" or not j2.result.get("per_run"):
+                return rep, None, j2
+            recs.append(j2.result["per_run"][0])
+        differs = recs[0].get("model") != recs[1].get("model")
+        rec = {"violation": {"sig": rep["signature"], "msg": f"model digests {recs[0].get('model')} vs {recs[1].get('model')}",
+                             "detail": rep.get("decoded")} if differs else None, "harness_error": None, "values": [], "tape_digest": None}
+        return rep, rec, j2
     if rep.get("tape") is None:
         # abnormal termination: no tape could be recorded; re-generate from the seed
         cfg.update(action="range", start=rep["index"], stop=rep["index"] + 1, step=1,
